@@ -17,6 +17,7 @@ PREFIX = "OUT"
 KEY_MERGE = "C07:crash-after-first-part-removal"
 KEY_CLEANUP = "C07:cleanup-removes-data-before-lock"
 KEY_LOCK_OPEN = "C07:lock-created-before-close"
+KEY_STALE = "C07:stale-locks-trusted-after-killed-fresh-start"
 # output kinds, numbered as in coq/ResumeProgram.v (gen_cfg): <prefix>.<kind> is the final file, <prefix>_<chr>.<kind> the per-chromosome part
 KINDS = ["corrected_reads.bed", "read_assignments.tsv",
          "gene_counts.tsv", "gene_counts.tsv.stats", "gene_tpm.tsv", "transcript_counts.tsv", "transcript_counts.tsv.stats", "transcript_tpm.tsv",
@@ -47,9 +48,11 @@ def make_synthetic(d, seed, n_chr):
 
 
 class Config:
-    def __init__(self, name, data, genedb=True, groups=None, keep_tmp=False, threads=None, seed=0, n_chr=1, pooled=False, glob_order=None, reuse=False):
+    def __init__(self, name, data, genedb=True, groups=None, keep_tmp=False, threads=None, seed=0, n_chr=1, pooled=False, glob_order=None, reuse=False, relative=False, extra=()):
         self.name, self.data, self.genedb, self.groups, self.keep_tmp, self.threads, self.seed, self.n_chr = name, data, genedb, groups, keep_tmp, threads, seed, n_chr
         self.glob_order = glob_order      # order in which glob.glob lists the temporary files for the clean-up (None: lexicographic)
+        self.relative = relative          # inputs given as RELATIVE paths (two-field `file:FILE` form for the read groups); --resume is issued from another directory
+        self.extra = list(extra)          # further command-line options
         self.reuse = reuse                # the run under test is `--read_assignments <saves of an earlier --keep_tmp run>`; every run gets its own copy of the saves
         self.sample = PREFIX + "0" if reuse else PREFIX          # name of the sample directory and of the output files
         self.pooled = pooled      # several chromosomes on several worker processes: the interleaving is not deterministic, no model correspondence
@@ -73,6 +76,10 @@ class Config:
             shutil.rmtree(keep, ignore_errors=True); shutil.rmtree(os.path.join(root, "home_saving_run_" + self.name), ignore_errors=True)
 
     def args(self, d):
+        if self.relative: return self._args("")
+        return self._args(d)
+
+    def _args(self, d):
         a = ["--reference", os.path.join(d, self.files["fasta"])]
         if self.genedb: a += ["--genedb", os.path.join(d, self.files["gtf"]), "--complete_genedb"]
         a += (["--read_assignments", os.path.join(os.path.dirname(d), "saves", PREFIX + ".save")] if self.reuse else ["--bam", os.path.join(d, self.files["bam"])]) + ["--data_type", "nanopore", "-p", PREFIX]
@@ -80,11 +87,12 @@ class Config:
         elif self.groups == "tag": a += ["--read_group", "tag:RG"]
         if self.keep_tmp: a.append("--keep_tmp")
         if self.threads: a += ["--threads", str(self.threads)]
-        return a
+        return a + self.extra
 
     def describe(self):
         return dict(config=self.name, data=self.data if self.data == "bundled" else "gen_data.World(seed=%d, n_chr=%d)" % (self.seed, self.n_chr), genedb=self.genedb,
-                    read_group=self.groups, keep_tmp=self.keep_tmp, threads=self.threads or "default", glob_order=self.glob_order or "sorted",
+                    read_group=self.groups, keep_tmp=self.keep_tmp, threads=self.threads or "default", glob_order=self.glob_order or "sorted", extra_options=self.extra,
+                    paths="relative to the working directory of the first invocation; --resume -o <absolute output dir> is issued from another directory that holds a decoy read-group table of the same name" if self.relative else "absolute",
                     mode="--read_assignments <private copy of aux/OUT.save* of a --keep_tmp run with the same options>" if self.reuse else "--bam")
 
     # ---- the output layout of this configuration (ReadAssignmentAggregator / GFFPrinter / merge_* in source order) ----
@@ -239,14 +247,32 @@ def finals(outdir, sample=PREFIX):
     return res
 
 
-def invoke(cfg, d, env, resume=False):
-    out = os.path.join(d, "out"); home = os.path.join(d, "home")
-    e = dict(env, ABLAB_ISOQUANT_VERIF="1", C07_TRACE=os.path.join(d, "resume.trace" if resume else "run.trace"))
-    if cfg.glob_order: e["C07_GLOB_ORDER"] = cfg.glob_order
+def run_iq(outdir, args, home, env_extra, cwd, timeout=900):
+    """pipeline.run_isoquant with a working directory of our choice"""
+    import subprocess
+    os.makedirs(home, exist_ok=True)
+    env = dict(os.environ)
+    env.update(HOME=home, PYTHONPATH=REPO + os.pathsep + os.path.join(VERIF, "harness"), PYTHONHASHSEED="0", PYTHONDONTWRITEBYTECODE="1", OMP_NUM_THREADS="1", OPENBLAS_NUM_THREADS="1")
+    env.update(env_extra)
     try:
-        return P.run_isoquant(out, ["--resume"] if resume else cfg.args(os.path.join(d, "data")), home=home, wrapper=WRAP, env_extra=e, timeout=900)
+        p = subprocess.run([PY, WRAP, "-o", outdir] + list(args), stdout=subprocess.PIPE, stderr=subprocess.STDOUT, text=True, timeout=timeout, env=env, cwd=cwd)
+        return p.returncode, p.stdout
     except Exception as ex:                              # a hanging run is a failure of that run, not of the check
         return 998, "harness: %s" % type(ex).__name__
+
+
+def invoke(cfg, d, env, resume=False, args=None, trace=None):
+    out = os.path.join(d, "out"); home = os.path.join(d, "home")
+    e = dict(env, ABLAB_ISOQUANT_VERIF="1", C07_TRACE=os.path.join(d, trace or ("resume.trace" if resume else "run.trace")))
+    if cfg.glob_order: e["C07_GLOB_ORDER"] = cfg.glob_order
+    cwd = d
+    if cfg.relative:
+        cwd = os.path.join(d, "data")
+        if resume:                                       # another directory, with an unrelated table of the same name
+            cwd = os.path.join(d, "elsewhere"); os.makedirs(cwd, exist_ok=True)
+            with open(os.path.join(cwd, cfg.files["groups"]), "w") as f:
+                for l in open(os.path.join(d, "data", cfg.files["groups"])): f.write(l.split("\t")[0] + "\tOTHER_PROJECT\n")
+    return run_iq(out, (["--resume"] if resume else cfg.args(os.path.join(d, "data"))) if args is None else args, home, e, cwd)
 
 
 def clean_run(cfg, root, env):
@@ -316,6 +342,7 @@ def sample_points(ticks, first, quota, rnd, modelled_after):
     for i, t in enumerate(ticks):
         k = i + 1
         if t[0] == 0 and is_lockish(t): must.add((k, "after"))
+        if t[1] == "RGLock" or (t[1].startswith("(RGPart") and t[0] == 0 and sum(1 for x in ticks[:i] if x[1].startswith("(RGPart")) < 2): must.update([(k, "before"), (k + 1, "before")])
         if is_lockish(t) or t[1] == "Info" or (t[0] == 2 and (i == 0 or ticks[i - 1][0] != 2)) or (t[0] != 2 and i > 0 and ticks[i - 1][0] == 2):
             hot.update([k - 1, k, k + 1])
     if part_rm:
@@ -329,6 +356,111 @@ def sample_points(ticks, first, quota, rnd, modelled_after):
     rnd.shuffle(hotp); hotp = hotp[:max((quota - len(must)) * 2 // 3, 0)]
     rest = [p for p in allp if p not in set(hotp) and p not in set(must)]; rnd.shuffle(rest)
     return sorted(must + hotp + rest[:max(quota - len(must) - len(hotp), 0)])
+
+
+
+# ------------------------------------------------------------------ histories: leftovers of a killed earlier run, kills inside the sqlite conversion
+DB_PHASES = ["before", "tables", "populated", "relations", "after"]
+RUN2_OPTIONS = ["--force", "--transcript_quantification", "all", "--gene_quantification", "all"]
+
+
+def n_trace(d, name): return len(read_trace(os.path.join(d, name)))
+
+
+def history_point(cfg1, cfg2, root, env, k1, when1, k2, when2, clean2, tag):
+    """run 1 (cfg1) killed at (k1, when1); the SAME output folder re-used by run 2 (cfg2 = other options, --force), killed at (k2, when2) of ITS OWN
+       mutation count (None: not killed); then --resume.  Finals must be those of an uninterrupted run 2 in a fresh folder."""
+    d = os.path.join(root, "hist_%s_%d%s_%s%s" % (tag, k1, when1[0], k2, (when2 or "x")[0])); os.makedirs(d)
+    try:
+        shutil.copytree(cfg2.src, os.path.join(d, "data"))
+        rc1, _ = invoke(cfg1, d, dict(env, C07_CRASH_AT=str(k1), C07_CRASH_WHEN=when1), trace="run1.trace")
+        left = sorted(os.listdir(os.path.join(d, "out", cfg1.sample, "aux"))) if os.path.isdir(os.path.join(d, "out", cfg1.sample, "aux")) else []
+        e2 = dict(env) if k2 is None else dict(env, C07_CRASH_AT=str(k2), C07_CRASH_WHEN=when2)
+        rc2, log2 = invoke(cfg2, d, e2, trace="run2.trace")
+        tr2 = read_trace(os.path.join(d, "run2.trace")); n2 = len(tr2)
+        pk2 = ([r["n"] for r in tr2 if r["path"].endswith(os.sep + ".params")] or [0])[0]
+        saves = set("%s.save_%s" % (cfg2.sample, c) for c in cfg2.chr_names)
+        started = any(r["op"] == "open" and os.path.basename(r["path"]) in saves for r in tr2)        # run 2 had begun to collect reads itself
+        marks = [([r["n"] for r in tr2 if r["op"] == "open" and f(os.path.basename(r["path"]))] or [0])[0]
+                 for f in (lambda b: b in saves, lambda b: b.endswith(".save_lock"), lambda b: b.startswith(cfg2.sample + "_"))]
+        res = dict(scenario="leftovers of a killed run, then --force run with other options, then --resume", run1=cfg1.describe(), run1_killed="%s mutation %d" % (when1, k1), rc_run1=rc1,
+                   leftovers_of_run1=[x for x in left if x.endswith(("_lock", "_collected", "_processed"))], run2_options=cfg2.extra,
+                   run2_killed=None if k2 is None else "%s mutation %d (of this run's own count)" % (when2, k2), rc_run2=rc2, run2_mutations_logged=n2, run2_params_written_at=pk2, run2_had_started_read_collection=started, run2_marks=marks,
+                   replay=dict(scenario="history", k1=k1, when1=when1, k2=k2, when2=when2))
+        if k2 is None:
+            rc3 = rc2; log3 = log2
+        elif rc2 == 0:
+            res["outcome"] = "run 2 finished before the kill point"; res["past_end"] = True; return res
+        else:
+            rc3, log3 = invoke(cfg2, d, env, resume=True)
+        fin = finals(os.path.join(d, "out"), cfg2.sample)
+        diff = sorted(f for f in clean2 if fin.get(f) != clean2[f])
+        res.update(rc_last=rc3, outcome="fails" if rc3 != 0 else "identical" if not diff else "different", differing_finals=diff[:6],
+                   error=[l.strip() for l in log3.splitlines() if re.search(r"Error|Traceback|assert", l)][-2:])
+        return res
+    finally:
+        shutil.rmtree(d, ignore_errors=True)
+
+
+def db_kill_point(cfg, root, env, phase, clean_fin):
+    d = os.path.join(root, "dbkill_%s_%s" % (cfg.name, phase)); os.makedirs(d)
+    try:
+        shutil.copytree(cfg.src, os.path.join(d, "data"))
+        rc1, _ = invoke(cfg, d, dict(env, C07_DB_KILL=phase))
+        dbs = [f for f in os.listdir(os.path.join(d, "out")) if f.endswith(".db")] if os.path.isdir(os.path.join(d, "out")) else []
+        rc2, log2 = invoke(cfg, d, env, resume=True)
+        fin = finals(os.path.join(d, "out"), cfg.sample); diff = sorted(f for f in clean_fin if fin.get(f) != clean_fin[f])
+        return dict(scenario="kill inside the GTF -> sqlite conversion (gffutils.create_db), then --resume", config=cfg.describe(), killed_at_phase=phase, rc_crash=rc1,
+                    db_files_left=dbs, rc_resume=rc2, outcome="fails" if rc2 != 0 else "identical" if not diff else "different", differing_finals=diff[:6],
+                    error=[l.strip() for l in log2.splitlines() if re.search(r"Error|Traceback|assert", l)][-2:], replay=dict(scenario="dbkill", phase=phase))
+    finally:
+        shutil.rmtree(d, ignore_errors=True)
+
+
+def histories(ctx, root, env, quick, only=None):
+    yield_list = []
+    """returns the list of result records of the multi-step histories and of the conversion-phase kills"""
+    cfg1 = Config("hist_run1", "bundled"); cfg2 = Config("hist_run2", "bundled", extra=RUN2_OPTIONS)
+    cfg1.prepare(root); cfg2.src, cfg2.files, cfg2.chr_names, cfg2.bam_refs = cfg1.src, cfg1.files, cfg1.chr_names, cfg1.bam_refs
+    rc, log, tr1, fin1, d1 = clean_run(cfg1, root, env); shutil.rmtree(d1, ignore_errors=True)
+    rc2, log2, tr2, clean2, d2 = clean_run(cfg2, root, env); shutil.rmtree(d2, ignore_errors=True)
+    ctx.cov["pipeline_runs"] += 2
+    if rc != 0 or rc2 != 0 or fin1 == clean2:
+        ctx.broken("pipeline:histories", "clean runs of the history scenario: exit %d / %d, outputs of the two option sets %s" % (rc, rc2, "do not differ" if fin1 == clean2 else "differ")); return []
+    names = Names(cfg1, d1); t1 = convert_trace(tr1, names)
+    proc = [i + 1 for i, t in enumerate(t1) if t[0] == 0 and t[1].startswith("(Processed")]
+    part_rm = [i + 1 for i, t in enumerate(t1) if t[0] == 2 and t[1].startswith("(Part")]
+    coll = [i + 1 for i, t in enumerate(t1) if t[0] == 0 and t[1].startswith("(Collected")]
+    # run 1 is killed: with all stage locks present and nothing merged yet / in the middle of merging / in stage 1
+    proc_rm = [i + 1 for i, t in enumerate(t1) if t[0] == 2 and t[1].startswith("(Processed")]
+    end_stage2 = min(proc_rm + part_rm)                   # every stage lock of run 1 exists, its per-chromosome files are complete, nothing is merged
+    k1s = [(end_stage2, "before"), (part_rm[len(part_rm) // 2], "before")] + ([] if quick else [(coll[0], "after"), (proc[0], "after"), (len(t1) - 3, "before")])
+    jobs = []
+    for k1, w1 in k1s:
+        if only and only.get("scenario") == "history":
+            if (k1, w1) == (only["k1"], only["when1"]): jobs.append(("h", k1, w1, only["k2"], only["when2"]))
+            continue
+        # uninterrupted run 2 over the leftovers gives this history's mutation count
+        r = history_point(cfg1, cfg2, root, env, k1, w1, None, None, clean2, "n"); ctx.cov["pipeline_runs"] += 2
+        yield_list.append(r)
+        n2 = r["run2_mutations_logged"]; pk = r["run2_params_written_at"]
+        pts = [(k, w) for k in range(pk + 1, n2 + 1) for w in ("before", "after")]
+        if quick:
+            early = [p for p in pts if p[0] <= pk + 26]; ctx.rnd.shuffle(early); late = [p for p in pts if p[0] > pk + 26]; ctx.rnd.shuffle(late)
+            m = r["run2_marks"]        # first open of a save file, creation of save_lock, first per-chromosome output of stage 2
+            pts = list(dict.fromkeys([(pk + 1, "before"), (pk + 2, "before")] + [(m[0] + 1, "before"), (m[1], "after"), (m[2] + 1, "before")] + early[:5] + late[:2]))
+            pts = [p_ for p_ in pts if pk < p_[0] <= n2]
+        jobs += [("h", k1, w1, k, w) for k, w in pts]
+    bund = Config("bundled_dbkill", "bundled"); bund.src, bund.files, bund.chr_names, bund.bam_refs = cfg1.src, cfg1.files, cfg1.chr_names, cfg1.bam_refs
+    for ph in DB_PHASES:
+        if only and not (only.get("scenario") == "dbkill" and only["phase"] == ph): continue
+        jobs.append(("d", ph))
+    def do(j):
+        if j[0] == "h": return history_point(cfg1, cfg2, root, env, j[1], j[2], j[3], j[4], clean2, "p")
+        return db_kill_point(bund, root, env, j[1], fin1)
+    with ThreadPoolExecutor(NPROC) as ex: out = list(ex.map(do, jobs))
+    ctx.cov["pipeline_runs"] += 3 * len(jobs)
+    return yield_list + out
 
 
 PRE = r"""From IQ Require Import Resume ResumeProgram.
@@ -365,11 +497,12 @@ def configs(ctx, quick):
           Config("bundled_glob_reverse", "bundled", glob_order="reverse"),
           Config("syn2_glob_locks_last", "syn", groups="file", threads=1, seed=ctx.seed + 11, n_chr=2, glob_order="locks_last"),
           Config("bundled_reuse", "bundled", reuse=True),
-          Config("syn3_reuse", "syn", threads=1, seed=ctx.seed + 6, n_chr=3, reuse=True)]
+          Config("syn3_reuse", "syn", threads=1, seed=ctx.seed + 6, n_chr=3, reuse=True),
+          Config("syn2_relative_paths", "syn", groups="file", threads=1, seed=ctx.seed + 11, n_chr=2, relative=True)]
     quota = {"bundled": 10 ** 6, "bundled_groups": 24 if quick else 10 ** 6, "bundled_keep_tmp": 16 if quick else 10 ** 6, "bundled_no_annotation": 16 if quick else 10 ** 6,
              "syn3_groups": 60 if quick else 10 ** 6, "syn2_tag_keep_tmp": 24 if quick else 10 ** 6, "syn3_pool": 16 if quick else 160,
              "bundled_glob_reverse": 16 if quick else 10 ** 6, "syn2_glob_locks_last": 16 if quick else 10 ** 6,
-             "bundled_reuse": 30 if quick else 10 ** 6, "syn3_reuse": 24 if quick else 10 ** 6}
+             "bundled_reuse": 30 if quick else 10 ** 6, "syn3_reuse": 24 if quick else 10 ** 6, "syn2_relative_paths": 24 if quick else 10 ** 6}
     return cs, quota
 
 
@@ -380,11 +513,11 @@ def run(ctx, only=None):
     env = {"C07_GLOB_ORDER": os.environ.get("C07_GLOB_ORDER", "sorted")}
     try:
         cs, quota = configs(ctx, quick)
-        if only: cs = [c for c in cs if c.name == only["config"]]
+        if only: cs = [c for c in cs if c.name == only.get("config")]
         if os.environ.get("C07_CONFIGS"): cs = [c for c in cs if c.name in os.environ["C07_CONFIGS"].split(",")]      # development aid
         for c in cs: c.prepare(root)
         # ---- clean runs: trace, finals, model configuration
-        with ThreadPoolExecutor(len(cs)) as ex: cleans = list(ex.map(lambda c: clean_run(c, root, env), cs))
+        with ThreadPoolExecutor(max(1, len(cs))) as ex: cleans = list(ex.map(lambda c: clean_run(c, root, env), cs))
         ctx.cov["pipeline_runs"] += len(cs)
         infos = []; cfg_terms = []; tcases = []
         for c, (rc, log, tr, fin, d) in zip(cs, cleans):
@@ -470,6 +603,18 @@ def run(ctx, only=None):
             txt = coq_eval(ctx, pre(PRE_OUT), "outcome_of (the %d%%nat) %d%%nat %s" % (i, o["k"], cbool(o["when"] == "after")))
             o["model_predicts"] = re.sub(r"\s+", " ", txt[txt.find("="):])[:200]
         ctx.corr_report("crash_resume_outcome_is_model_prediction", mism, viol)
+        # ---- histories in one folder and kills inside the sqlite conversion: no model prediction, the real outcome decides
+        if not only or only.get("scenario"):
+            t1 = time.time(); hres = [r for r in histories(ctx, root, env, quick, only) if not r.get("past_end")]
+            hsum = collections.Counter((r["scenario"].split(",")[0][:40], r["outcome"]) for r in hres)
+            ctx.count(evaluations=len(hres), nontrivial=len(hres), traces=len(hres))
+            for r in hres:
+                if r["outcome"] == "identical": continue
+                # structural: run 2 died after rewriting .params and before its own start-up reached the point where collect_reads drops the locks of the earlier run
+                key = KEY_STALE if (r["replay"]["scenario"] == "history" and r.get("leftovers_of_run1") and not r.get("run2_had_started_read_collection") and r["replay"]["k2"] is not None) else None
+                ctx.violation(key, ("the resumed run exits 0 but final outputs differ from an uninterrupted run with the same options" if r["outcome"] == "different" else "the resumed run fails") +
+                              (" (output folder held the leftovers of an earlier killed run)" if r["replay"]["scenario"] == "history" else " (run killed while the annotation was converted to sqlite)"), r)
+            ctx.notes.append("histories / conversion-phase kills: %d scenarios in %.0f s: %s" % (len(hres), time.time() - t1, dict(("%s -> %s" % k, v) for k, v in hsum.items())))
         for info in infos:
             c = info["cfg"]; n = len(info["ticks"])
             ctx.notes.append("%s: %d mutations (%d after .params), code variant %s, %d crash points run (%s), outcomes %s" %
@@ -489,8 +634,13 @@ def run(ctx, only=None):
         ctx.assume.append("the kill is a SIGKILL of the process group: data already handed to the OS (closed or flushed files) survives, buffered data is lost; the file system itself is not crashed "
                           "(no loss of closed files, no reordering of directory operations)")
         ctx.assume.append("directory enumeration order (glob) is fixed to lexicographic by the wrapper so that the clean-up phase is deterministic; other orders can be explored with C07_GLOB_ORDER=reverse|locks_last|fs")
-        ctx.assume.append("mutations performed inside C libraries (sqlite database of gffutils, pysam) are not counted; crashes while ~/.config/IsoQuant/*.json or the pyfaidx index are half written "
-                          "belong to C20 / third-party code and are only enumerated as 'before' points")
+        ctx.assume.append("mutations performed inside C libraries (sqlite database of gffutils, pysam) are not counted by the mutation counter; kill points INSIDE the GTF -> sqlite conversion are sampled by "
+                          "phase (before create, tables created, features inserted and committed, relations inserted, after create), not enumerated; crashes while the pyfaidx index is half written "
+                          "belong to third-party code and are only enumerated as 'before' points")
+        ctx.rule("histories: (a) run 1 on the bundled data killed (before the first part removal, in the middle of merging; thorough: also in stage 1, after the first _processed lock, in the clean-up), the same "
+                 "folder re-used by run 2 = --force + other quantification options, killed before / right after a mutation of ITS OWN count (thorough: every one; quick: the first two after .params, 7 early, 3 late) "
+                 "or not at all, then --resume; finals must equal an uninterrupted run 2 in a fresh folder; (b) kills at 5 phases of gffutils.create_db, then --resume; (c) a configuration with relative input "
+                 "paths (two-field file:FILE read-group option) resumed from another working directory that holds a decoy table of the same name")
     finally:
         shutil.rmtree(root, ignore_errors=True)
 
@@ -498,6 +648,8 @@ def run(ctx, only=None):
 def replay(ctx, rep):
     r = rep.get("replay") or {}
     r = r.get("replay", r)
+    if isinstance(r, dict) and r.get("scenario") in ("history", "dbkill"):
+        return run(ctx, only=r)
     if not isinstance(r, dict) or "config" not in r:
         return run(ctx)
     run(ctx, only=dict(config=r["config"], k=int(r["k"]), when=r["when"]))
